@@ -83,3 +83,19 @@ PARAM_KINDS = {
     ("tools.rdf_converter.RDFWriter.save_section", "sec"): ("BaseSection",),
     ("tools.rdf_converter.RDFWriter.save_property", "prop"): ("BaseProperty",),
 }
+
+
+# (b') return kinds the solver cannot derive (values kept in dict subclasses)
+RETURN_KINDS = {
+    # Terminologies/TemplateHandler are dicts url -> parsed document (or None when parsing failed): _load stores exactly that
+    "terminology.Terminologies.load": ("BaseDocument", "None"),
+    "terminology.Terminologies._load": ("BaseDocument", "None"),
+    "templates.TemplateHandler.load": ("BaseDocument", "None"),
+    "templates.TemplateHandler._load": ("BaseDocument", "None"),
+}
+RETURN_KINDS.update({
+    # path lookups return an element of a sections list or raise ValueError (read: base.py _get_section_by_path / _match_iterable)
+    "base.Sectionable.get_section_by_path": ("BaseSection",),
+    "base.Sectionable._get_section_by_path": ("BaseSection",),
+    "base.Sectionable.get_property_by_path": ("BaseProperty",),
+})
